@@ -118,8 +118,12 @@ func c12Oracle(core bool, pre c12Pre, op vOp, res vRes, post vSnap) []string {
 		v = append(v, fmt.Sprintf("target-not-current-and-kept: target %d, current %d, kept %v", target, post.Cur, post.Seq))
 	}
 	for _, u := range pre.inUse {
-		if vIndexOf(pre.snap.Seq, u) >= 0 && vIndexOf(post.Seq, u) < 0 {
-			v = append(v, fmt.Sprintf("in-use-discarded: revision %d is needed for booting and was discarded (kept %v -> %v)", u, pre.snap.Seq, post.Seq))
+		if ui := vIndexOf(pre.snap.Seq, u); ui >= 0 && vIndexOf(post.Seq, u) < 0 {
+			inv := "in-use-discarded" // by the normal garbage collection of old revisions
+			if ui > ci {
+				inv = "in-use-after-current-discarded" // by the clean-up of revisions left over after current
+			}
+			v = append(v, fmt.Sprintf("%s: revision %d is needed for booting and was discarded (kept %v -> %v, current was %d)", inv, u, pre.snap.Seq, post.Seq, pre.snap.Cur))
 		}
 	}
 	return v
